@@ -18,11 +18,12 @@
 
    clauses
      Returns         phase / unphase raise nothing
-     RoundTrip       target samples: the written encoding, decoded by the convention (VcfModel!DecPS/DecHP
-                     on the raw text) and by whatshap's reader, gives exactly P
+     RoundTrip       target samples: every statement of P comes back from the written encoding, decoded by the
+                     convention (VcfModel!DecPS/DecHP on the raw text) and by whatshap's reader
      TagEquivalence  two runs on the same file with the same phase input and targets but different tags
                      decode to the same statements (sets, set names, ordered alleles)
-     NoStalePhase    target samples: under either decoder every statement in the output is the one of P
+     NoStalePhase    target samples: the output states nothing but P: no differing statement in the other
+                     encoding, no statement in any encoding where P has none
      DecodesCleanly  unless a non-target sample already carried the other encoding in the input, the
                      output can be read back (no MixedPhasingError or any other exception)
      VcfReproduces   phased VCF g as only phase input: every phase set of g with >= 2 shared heterozygous
@@ -46,11 +47,19 @@ Tgt(e) == Rng(e.targets)
 Shape(e) == /\ Len(e.out.recs) = Len(files[e.src].recs)
             /\ \A s \in Tgt(e) : s \in DOMAIN e.P /\ Len(e.P[s]) = Len(e.out.recs)
 
-RoundTripSpec(e) == \A s \in Tgt(e) : \A i \in Recs(e.out) : Dec(e.tag, Call(e.out, s, i)) = e.P[s][i]
-RoundTripReal(e) == e.dec.exc = "" => \A s \in Tgt(e) : \A i \in Recs(e.out) : e.dec.ph[s][i] = e.P[s][i]
+(* what was written comes back: at every site with a statement in P *)
+RoundTripSpec(e) == \A s \in Tgt(e) : \A i \in Recs(e.out) :
+                        e.P[s][i] # NoPhase => Dec(e.tag, Call(e.out, s, i)) = e.P[s][i]
+RoundTripReal(e) == e.dec.exc = "" => \A s \in Tgt(e) : \A i \in Recs(e.out) :
+                        e.P[s][i] # NoPhase => e.dec.ph[s][i] = e.P[s][i]
 
-NoStale(e) == \A s \in Tgt(e) : \A i \in Recs(e.out) : \A tg \in {"PS", "HP"} :
-                  Dec(tg, Call(e.out, s, i)) \in {NoPhase, e.P[s][i]}
+(* and nothing else is stated for a target sample: no statement in the other encoding that differs from P,
+   no statement at all (either encoding, either decoder) where the run made none *)
+NoStale(e) == \A s \in Tgt(e) : \A i \in Recs(e.out) :
+                  /\ Dec(Other(e.tag), Call(e.out, s, i)) \in {NoPhase, e.P[s][i]}
+                  /\ e.P[s][i] = NoPhase => Dec(e.tag, Call(e.out, s, i)) = NoPhase
+NoStaleReal(e) == e.dec.exc = "" => \A s \in Tgt(e) : \A i \in Recs(e.out) :
+                  e.P[s][i] = NoPhase => e.dec.ph[s][i] = NoPhase
 
 Inherited(e) == LET src == files[e.src] IN
     \E s \in (1..NSamples(src)) \ Tgt(e) : \E i \in Recs(src) : Dec(Other(e.tag), Call(src, s, i)) # NoPhase
@@ -90,7 +99,7 @@ JudgePhase(e) ==
     ELSE IF e.exc # "" THEN Fail(e, "Returns")
     ELSE IF ~Shape(e) THEN Fail(e, "RecordsKept")
     ELSE /\ Check(e, "RoundTrip", RoundTripSpec(e) /\ RoundTripReal(e))
-         /\ Check(e, "NoStalePhase", NoStale(e))
+         /\ Check(e, "NoStalePhase", NoStale(e) /\ NoStaleReal(e))
          /\ Check(e, "DecodesCleanly", ~Inherited(e) => e.dec.exc = "")
          /\ Check(e, "VcfReproduces", VcfReproduces(e))
          /\ Check(e, "TagEquivalence",
